@@ -270,6 +270,9 @@ impl Prop for C11 {
             GenSpec::enumerated("scaling", tier.pick(6, 9)),
             // interpreter-sized cases for the Miri leg (tools/legs.sh); not part of the native plan
             GenSpec::random("miri-sample", 0),
+            // instruction-count leg (tools/irleg.sh, valgrind --tool=cachegrind): one read of a library of 32 * 2^(n/2) macros;
+            // odd n: the same text with an error at the very end (the error report is part of the cost). Not part of the native plan.
+            GenSpec::enumerated("ir-scale", 0),
         ]
     }
     fn run_case(&self, cx: &mut Cx) {
@@ -430,6 +433,29 @@ impl Prop for C11 {
                     self.probe(cx, &v, "miri");
                 }
                 cx.nontrivial(crate::rt::prng::strhash(&text));
+            }
+            "ir-scale" => {
+                let nm = 32usize << (cx.n / 2);
+                let mut rng = Rng::new(0x1A5C); // the same macro at every size, independent of the seed
+                let cfg = LefCfg { max_macros: 1, max_pins: 2, ..Default::default() };
+                let mut g = rand_lef(&mut rng, &cfg);
+                let m = rand_macro(&mut rng, &cfg, false);
+                g.lib.macros = (0..nm).map(|i| { let mut mm = m.clone(); mm.name = format!("M{}", i); mm }).collect();
+                g.lib.version = None;
+                g.lib.names_case_sensitive = None;
+                g.lib.no_wire_extension_at_pin = None;
+                for mm in g.lib.macros.iter_mut() { mm.source = None; }
+                let (mut text, _) = render(&g, &cfg, &mut rng, Style::plain());
+                if cx.n % 2 == 1 {
+                    text.push_str(" MACRO x PIN ;");
+                }
+                let path = cx.tmp("ir.lef");
+                std::fs::write(&path, &text).expect("tmpfs write");
+                cx.eval();
+                let r = guard(|| LefLibrary::open(&path));
+                let _ = std::fs::remove_file(&path);
+                cx.count(match r { Ok(Ok(_)) => "ir_scale_accepted", Ok(Err(_)) => "ir_scale_rejected", Err(_) => "ir_scale_panicked" });
+                cx.max("max.ir_scale_bytes", text.len() as u64);
             }
             "scaling" => {
                 // 2^k macros: the step counts per byte must stay within the same budget
